@@ -2185,14 +2185,21 @@ theorem llcStr_ok (h : Llc) : llcStr (Cfg.tree fx vr) h = .ok () := by
   repeat' split
   all_goals first | rfl | (rename_i hc; simp [Cfg.tree] at hc)
 
-/-- `str()` / `dump()` of any object chain of the repaired code is defined -/
-theorem printF_ok (f : Frame) : printF (Cfg.tree fx vr) f = .ok () := by
+/-- `__str__` of every phase-2 class is defined on a parsed object: the numbers it formats with `%d` / `%i` / `%x` are numbers -/
+theorem extStr_ok (x : Ext) : extStr x = .ok () := by
+  cases x <;> try rfl
+  case gre h => simp only [extStr]; cases h.csum <;> rfl
+
+/-- `dump()` of a chain is defined unless it contains an opaque layer (the only one a parse produces: TCP with MPTCP options) -/
+theorem printF_ok (f : Frame) (h : f.foreigns = []) : printF (Cfg.tree fx vr) f = .ok () := by
   induction f with
-  | raw _ | nil | unparsed _ _ | foreign _ _ | ext _ _ _ _ => rfl
+  | raw _ | nil | unparsed _ _ => rfl
+  | foreign c _ => simp [Frame.foreigns] at h
+  | ext x _ n ih => simp [printF, extStr_ok, ih (by simpa [Frame.foreigns] using h), bind, Except.bind]
   | lldp ts _ _ => exact tlvsStr_ok (vr := vr) ts
-  | llc h p r n ih => simp [printF, llcStr_ok, ih, bind, Except.bind]
+  | llc hh p r n ih => simp [printF, llcStr_ok, ih (by simpa [Frame.foreigns] using h), bind, Except.bind]
   | eth _ _ _ ih | vlan _ _ _ ih | arp _ _ _ ih | ipv4 _ _ _ ih | udp _ _ _ ih | tcp _ _ _ ih | icmp _ _ _ ih
-  | echo _ _ _ ih | unreach _ _ _ ih | timeEx _ _ _ ih => simpa [printF] using ih
+  | echo _ _ _ ih | unreach _ _ _ ih | timeEx _ _ _ ih => simpa [printF] using ih (by simpa [Frame.foreigns] using h)
 
 /-! ## re-serialising a parse result -/
 
